@@ -32,6 +32,13 @@ CB == INSTANCE Components WITH
        OrderM1 <- BigSub(RJ, BigOne), OrderBits <- RJBits, EightInvBits <- EightInvB,
        AdvMode <- "closing-first"
 
+CS == INSTANCE Components WITH
+       FAdd <- BAdd, FSub <- BSub, FMul <- BMul, FNeg <- BNeg, FInv <- BInv,
+       FInt <- BInt, FBit <- BBit, FShr <- BShr, FLow <- BLow, FPow2 <- BPow2,
+       NB <- 255, EdD <- BEdwardsD, ScalarBits <- 252,
+       OrderM1 <- BigSub(RJ, BigOne), OrderBits <- RJBits, EightInvBits <- EightInvB,
+       AdvMode <- "shift-split"
+
 Quick == Tier = "quick"
 Map(s, Op(_)) == [i \in 1..Len(s) |-> Op(s[i])]
 RECURSIVE Flat(_)
@@ -244,8 +251,10 @@ SubgroupCases ==
      Map(Candidates, LAMBDA p :
         [g |-> "assert_torsion_free", expect |-> IF InSubgroup(p) THEN Ok(<< >>) ELSE Unsat,
          ops |-> << PtOp(p, "P"), [op |-> "assert_torsion_free", p |-> "P", out |-> "T"] >>])
-  \o Flat(Map(<< JubJubG, Id, JubJubMixed, T4 >>, LAMBDA p :
-        Map(<< EightInvPt(p), C!PtAdd(EightInvPt(p), JubJubT8), C!PtAdd(EightInvPt(p), T2), OffCurve, Origin, Id, p >>, LAMBDA q :
+  \o Flat(Map(<< JubJubG, Id, JubJubMixed, T4, T2, C!PtAdd(JubJubG, T2) >>, LAMBDA p :
+        Map(<< EightInvPt(p), C!PtAdd(EightInvPt(p), JubJubT8), C!PtAdd(EightInvPt(p), T2), OffCurve, Origin, Id, p,
+               JubJubT8, T4, C!PtAdd(PtMulInt(p, BigInvMod(BigFromInt(4), RJ), 252), JubJubT8),
+               C!PtAdd(PtMulInt(p, BigInvMod(BigFromInt(2), RJ), 252), T4) >>, LAMBDA q :
           [g |-> "torsion_free_gates",
            expect |-> IF C!PtOnCurve(q) /\ Eight(q) = p THEN Ok(<< >>) ELSE Unsat,
            ops |-> << PtOp(p, "P"), [op |-> "torsion_free_gates", p |-> "P", qu |-> q[1], qv |-> q[2]] >>])))
@@ -316,6 +325,17 @@ LogicAlias(p, xor, x, y) ==
       ops |-> << Wt(x, "x"), Wt(y, "y"),
                  [op |-> "logic", a |-> "x", b |-> "y", pairs |-> p, xor |-> xor, out |-> "o"] >>
               \o Overrides(honest, aliased, {7, 8})]
+\* the split moved by one unit: low + 2^n, high - 1 (all other witnesses regenerated)
+TruncShift(n, x) ==
+  LET honest == C!Truncate(InState(x), 7, n).st.vals
+      adv == CS!Truncate(InState(x), 7, n).st.vals
+  IN [g |-> "truncate-shift", n |-> n, x |-> x, expect |-> NotOther(<< BigLow(x, n) >>),
+      ops |-> << Wt(x, "x"), [op |-> "truncate", w |-> "x", n |-> n, out |-> "t"] >>
+              \o Overrides(honest, adv, {7})]
+TruncShiftCases ==
+  Flat(Map(IF Quick THEN <<1, 8, 64, 128, 253>> ELSE [i \in 1..253 |-> i],
+           LAMBDA n : Map(<< M1, Rnd(83) >>, LAMBDA x : TruncShift(n, x))))
+
 AliasX == << BInt(5), BigLow(Rnd(81), 250) >>
 TruncAliasCases ==
   Flat(Map(IF Quick THEN <<1, 64, 128, 192, 254>> ELSE [i \in 1..254 |-> i],
@@ -352,6 +372,9 @@ DigitCases ==
   Flat(Map(<< BInt(5), BigLow(Rnd(91), 250), Zero >>, LAMBDA s :
     << DigitCase("s+q", s, BigAdd(s, RJ)), DigitCase("s+2q", s, BigAdd(s, BigAdd(RJ, RJ))),
        DigitCase("s+r", s, BigAdd(s, R)), DigitCase("s+1", s, BigAdd(s, BigOne)) >>))
+  \o << DigitCase("noncanonical-own-digits", RJ, RJ),
+        DigitCase("noncanonical-own-digits", BSub(P2(252), One), BSub(P2(252), One)),
+        DigitCase("noncanonical-own-digits", BAdd(RJ, BInt(5)), BAdd(RJ, BInt(5))) >>
   \o << [g |-> "fixed-digits/honest", expect |-> Ok(GMul(BInt(77))),
          ops |-> << Wt(BInt(77), "s"), [op |-> "fixed_base_digits", s |-> "s", pt |-> PtJ(JubJubG), digits |-> NafInt(BInt(77)), out |-> "R"] >>] >>
 
@@ -431,7 +454,7 @@ AllCases ==
     [] Family = "decomposition" -> DecompCases
     [] Family = "decomposition-alias" -> AliasCases
     [] Family = "shape" -> ShapeCases
-    [] Family = "truncate-alias" -> TruncAliasCases
+    [] Family = "truncate-alias" -> TruncAliasCases \o TruncShiftCases
     [] Family = "logic-alias" -> LogicAliasCases
     [] Family = "fixed-digits" -> DigitCases
     [] Family = "range-closing" -> RangeClosingCases
